@@ -127,6 +127,8 @@ def check_layout(case, workdir):
                     # gross differences are reported there
                     tol = (1e-11 if dyadic else 1e-4) * step * (abs(x) + 1e-3 * scale[k])
                     if abs(x - y) > tol:
+                        # read off the recorded state of a real multi-threaded run
+                        r.schedule_dependent = (dd is dT and case["threads"] > 1)
                         return r.fail("step %d, layout %s, %s: %s of cell at %s is %r, undivided run has %r (diff %.3g, tol %.3g)" % (
                             step, nsub, name, varnames[k], ra[:3], y, x, abs(x - y), tol))
         if step > 1:
@@ -162,6 +164,7 @@ def check_conservation(case, workdir):
             safeguard = True
     if safeguard:
         r.label("safeguard-active")
+    r.schedule_dependent = case["threads"] > 1
     if fully_periodic and not safeguard:
         last = recs[-1]
         n = len(recs)
